@@ -214,7 +214,10 @@ def rule_v2(chk: Check) -> None:
 
     # Titan parser guards
     tf = chk.proj.func("protocol.request:TitanRequest.from_line")
-    g2 = build_cfg(chk.proj, tf)
+    # helpers of the same module (e.g. an extracted size parser) are part of the parser
+    from ..cfg import Builder
+
+    g2 = Builder(chk.proj, lambda caller, call, callee, depth: callee.module is tf.module and callee.node.name != "from_line", 3).build(tf)
     line = [p for p in tf.params if p != "cls"][0]
 
     def guard(name, match, reject_label):
